@@ -122,7 +122,34 @@ type Options struct {
 var (
 	genOpts Options
 	genRand *core.Rand // the option PRNG of the case being generated (set by Generate)
+	varRand *core.Rand // PRNG of the input-space variations applied to every profile (set by Generate)
 )
+
+// vary applies input-space variations that must make no difference on correct code, to every profile, from a PRNG
+// of their own: a continuous group's Delay is 0 (the effective default: runContChecks then ticks every 1 ns, runs
+// follow each other back to back, paced only by the capacity-1 result channel) for the plan / for the blocks with
+// probability 0.25 each; an unlimited tolerance (-1) is written -2 or -7 with probability 0.3.
+func (sp *Spec) vary() {
+	if varRand == nil {
+		return
+	}
+	vr := varRand
+	for i := range sp.ContDelayUs {
+		if vr.Chance(0.25) {
+			sp.ContDelayUs[i] = 0
+		}
+	}
+	neg := 0
+	for b := range sp.Shape.Blocks {
+		if sp.Shape.Blocks[b].Tol == -1 && vr.Chance(0.3) {
+			sp.Shape.Blocks[b].Tol = []int{-2, -7}[vr.Intn(2)]
+			neg++
+		}
+	}
+	sp.Dist["cont_delay_us"] = []int{sp.ContDelayUs[0], sp.ContDelayUs[1]}
+	sp.Dist["cont_delay_zero"] = map[bool]int{true: 1}[sp.ContDelayUs[0] == 0] + map[bool]int{true: 1}[sp.ContDelayUs[1] == 0]
+	sp.Dist["tol_other_negative"] = neg
+}
 
 // forceDeferred implements Options.DeferredP.
 func (sp *Spec) forceDeferred() {
@@ -152,6 +179,7 @@ func (sp *Spec) forceDeferred() {
 // and the distribution facts.
 func (sp *Spec) seal(r *core.Rand) *Spec {
 	sp.forceDeferred()
+	sp.vary()
 	nonok, holds := 0, 0
 	hist := map[string]int{}
 	paths := make([]string, 0, len(sp.Scripts))
@@ -302,6 +330,7 @@ func perm(r *core.Rand, n int) []int {
 func Generate(seed uint64, profile string, idx int, o Options) *Spec {
 	genOpts = o
 	genRand = core.NewRand(seed).Fork(uint64(idx)).Fork(0xdefe77ed)
+	varRand = core.NewRand(seed).Fork(uint64(idx)).Fork(0x7a41a7e)
 	r := core.NewRand(seed).Fork(uint64(idx)).Fork(uint64(len(profile))*131 + uint64(profile[0]))
 	switch profile {
 	case "order":
@@ -438,7 +467,7 @@ type tolCombo struct{ tol, conc, nseq, mask int }
 
 func tolFamily() []tolCombo {
 	var f []tolCombo
-	for tol := -1; tol <= 2; tol++ {
+	for _, tol := range []int{-7, -2, -1, 0, 1, 2} { // every negative value means unlimited
 		for conc := 1; conc <= 3; conc++ {
 			for n := 1; n <= 4; n++ {
 				for m := 0; m < 1<<n; m++ {
@@ -526,6 +555,7 @@ type gateCombo struct {
 	mask     int  // presence subset
 	bypassOK bool // the bypass group (if present) succeeds: the scope is skipped
 	fail     int  // first failing group among pre/cont/post/deferred, -1 = none
+	delay0   bool // fail = cont only: the continuous group has Delay 0 (the effective default)
 }
 
 func gateFamily() []gateCombo {
@@ -533,12 +563,15 @@ func gateFamily() []gateCombo {
 	for _, lvl := range []bool{false, true} {
 		for m := 0; m < 32; m++ {
 			if m&1 != 0 {
-				f = append(f, gateCombo{lvl, m, true, -1})
+				f = append(f, gateCombo{lvl, m, true, -1, false})
 			}
-			f = append(f, gateCombo{lvl, m, false, -1})
+			f = append(f, gateCombo{lvl, m, false, -1, false})
 			for g := GPre; g <= GDeferred; g++ {
 				if m&(1<<g) != 0 {
-					f = append(f, gateCombo{lvl, m, false, g})
+					f = append(f, gateCombo{lvl, m, false, g, false})
+					if g == GCont {
+						f = append(f, gateCombo{lvl, m, false, g, true})
+					}
 				}
 			}
 		}
@@ -573,7 +606,13 @@ func genGate(r *core.Rand, seed uint64, idx int) *Spec {
 	if c.fail >= 0 {
 		failName = grpShort[c.fail]
 	}
+	if c.delay0 {
+		failName += "-delay0"
+	}
 	sp := newSpec("gate", idx, fmt.Sprintf("%s-mask=%05b-bypassok=%v-fail=%s", lvl, c.mask, c.bypassOK, failName), sh, r)
+	if c.delay0 {
+		sp.ContDelayUs[map[bool]int{false: 0, true: 1}[c.block]] = 0
+	}
 	if c.mask&1 != 0 && !c.bypassOK {
 		sp.Scripts[ChkPath(scope, GBypass, 0)] = Script{failRun(r, gs[GBypass].Retries[0], false)}
 	}
